@@ -272,6 +272,21 @@ def c18_run(rep, rng, tier, term):
                 continue
             if cs and toks != list(cs):
                 out.append({'oracle': 'C18.erroneous', 'case': payload, 'msg': 'tokens %s returned for input %s' % (toks, cs)})
+        # "a list of ints/strings": the same codes written as decimal strings, or mixed, split exactly like the ints
+        for cs in lists[::3]:
+            if not cs:
+                continue
+            for ae in (False, True):
+                try:
+                    ref = [str(x) for x in parse_graphic_sequence(list(cs), ae)]
+                    as_str = [str(x) for x in parse_graphic_sequence([str(c) for c in cs], ae)]
+                    mixed = [str(x) for x in parse_graphic_sequence([(str(c) if k % 2 else c) for k, c in enumerate(cs)], ae)]
+                except Exception as e:  # noqa
+                    out.append({'oracle': 'C18.forms', 'case': {'codes': cs, 'add_erroneous': ae}, 'msg': 'raised %r' % e})
+                    continue
+                if as_str != ref or mixed != ref:
+                    out.append({'oracle': 'C18.forms', 'case': {'codes': cs, 'add_erroneous': ae},
+                                'msg': 'codes %s as ints give %s, as decimal strings %s, mixed %s' % (cs, ref, as_str, mixed)})
         # ';'-separated string input: the code list is what a terminal reads from the same characters
         # (an empty parameter is 0)
         for w in str_inputs:
